@@ -523,4 +523,187 @@ theorem truePositions_length (bs : List Bool) : (truePositions bs).length = bs.c
   | nil => simp [truePositions]
   | cons b bs ih => cases b <;> simp [truePositions, ih]
 
+/-! ### rank: `structural_index` -/
+
+theorem allBits_getElem? (ws : List (BitVec 64)) (p : Nat) :
+    (allBits ws)[p]? = (ws[p / 64]?).map (·.getLsbD (p % 64)) := by
+  induction ws generalizing p with
+  | nil => simp [allBits]
+  | cons w ws ih =>
+    rw [allBits_cons]
+    by_cases hp : p < 64
+    · have h0 : p / 64 = 0 := by omega
+      have h1 : p % 64 = p := by omega
+      rw [List.getElem?_append_left (by simp [wordBits_length]; exact hp)]
+      simp [h0, h1, wordBits, hp]
+    · have h0 : p / 64 = (p - 64) / 64 + 1 := by omega
+      have h1 : p % 64 = (p - 64) % 64 := by omega
+      rw [List.getElem?_append_right (by simp [wordBits_length]; omega), wordBits_length, ih, h0, h1]
+      simp
+
+theorem wordBits_zero : wordBits 0#64 = List.replicate 64 false := by decide
+
+theorem count_take_allBits (ws : List (BitVec 64)) (p : Nat) :
+    ((allBits ws).take p).count true =
+      ((ws.take (p / 64)).map popc).sum + ((wordBits (ws.getD (p / 64) 0#64)).take (p % 64)).count true := by
+  induction ws generalizing p with
+  | nil =>
+    simp only [allBits, List.flatMap_nil, List.take_nil, List.count_nil, List.map_nil, List.sum_nil,
+      List.getD_nil, wordBits_zero, Nat.zero_add]
+    rw [List.take_replicate, List.count_replicate]; simp
+  | cons w ws ih =>
+    rw [allBits_cons]
+    by_cases hp : p < 64
+    · have h0 : p / 64 = 0 := by omega
+      have h1 : p % 64 = p := by omega
+      rw [List.take_append_of_le_length (by simp [wordBits_length]; omega)]
+      simp [h0, h1]
+    · have h0 : p / 64 = (p - 64) / 64 + 1 := by omega
+      have h1 : p % 64 = (p - 64) % 64 := by omega
+      rw [List.take_append, wordBits_length, List.take_of_length_le (by simp [wordBits_length]; omega),
+        List.count_append, ih, h0, h1]
+      have hc : (wordBits w).count true = popc w := by rw [Kernels.popc_eq_popcount]; rfl
+      simp [hc]; omega
+
+theorem mask_bits : ∀ b : Fin 64, ∀ i : Fin 64,
+    ((1#64 <<< b.val) - 1#64).getLsbD i.val = decide (i.val < b.val) := by decide +kernel
+
+theorem wordBits_and_mask (w : BitVec 64) (b : Nat) (hb : b < 64) :
+    wordBits (w &&& ((1#64 <<< b) - 1#64)) = (wordBits w).take b ++ List.replicate (64 - b) false := by
+  apply List.ext_getElem
+  · simp [wordBits]; omega
+  · intro i h1 h2
+    simp only [wordBits, List.length_map, List.length_range] at h1
+    have hm := mask_bits ⟨b, hb⟩ ⟨i, h1⟩
+    simp only at hm
+    simp only [wordBits, List.getElem_map, List.getElem_range, BitVec.getLsbD_and, hm]
+    by_cases hi : i < b
+    · rw [List.getElem_append_left (by simp [List.length_take]; omega)]
+      simp [hi]
+    · rw [List.getElem_append_right (by simp [List.length_take]; omega)]
+      simp [hi]
+
+theorem popc_and_mask (w : BitVec 64) (b : Nat) (hb : b < 64) :
+    popc (w &&& ((1#64 <<< b) - 1#64)) = ((wordBits w).take b).count true := by
+  rw [Kernels.popc_eq_popcount, popcount, wordBits_and_mask w b hb, List.count_append]
+  simp [List.count_replicate]
+
+theorem shift_and_one (w : BitVec 64) (b : Nat) :
+    ((w >>> b) &&& 1#64 = 0#64) ↔ w.getLsbD b = false := by
+  constructor
+  · intro h
+    have := congrArg (·.getLsbD 0) h
+    simpa [BitVec.getLsbD_and, BitVec.getLsbD_ushiftRight] using this
+  · intro h
+    apply BitVec.eq_of_getLsbD_eq
+    intro i hi
+    simp only [BitVec.getLsbD_and, BitVec.getLsbD_ushiftRight, BitVec.getLsbD_one, BitVec.getLsbD_zero]
+    by_cases h0 : i = 0
+    · subst h0; simp [h]
+    · simp [h0]
+
+/-- `ib_rank1` is the number of set bits before `pos`, whenever `pos / 64` is a valid word index or
+`pos % 64 = 0`. -/
+theorem ibRank1_eq (x : Index) (pos : Nat) (h : pos / 64 < x.ib.length ∨ pos % 64 = 0) :
+    ibRank1 x pos = ((allBits x.ib).take pos).count true := by
+  rw [count_take_allBits]
+  simp only [ibRank1]
+  by_cases h0 : pos = 0
+  · subst h0; simp
+  · simp only [h0, if_false]
+    by_cases hc : pos / 64 < x.ib.length ∧ pos % 64 > 0
+    · simp only [hc, and_self, if_true]
+      rw [popc_and_mask _ _ (Nat.mod_lt _ (by omega))]
+    · simp only [hc, if_false]
+      have : pos % 64 = 0 := by omega
+      simp [this]
+
+theorem getD_allBits_pack (bs : List Bool) (p : Nat) (hp : p < bs.length) :
+    ((pack bs).getD (p / 64) 0#64).getLsbD (p % 64) = bs.getD p false := by
+  have h := allBits_getElem? (pack bs) p
+  rw [pack, allBits_packN _ _ (by omega), List.getElem?_append_left hp] at h
+  have hl : p / 64 < (packN ((bs.length + 63) / 64) bs).length := by
+    have : ∀ k xs, (packN k xs).length = k := by
+      intro k; induction k with
+      | zero => intro xs; rfl
+      | succ k ih => intro xs; simp [packN, ih]
+    rw [this]; omega
+  rw [List.getElem?_eq_getElem hp, List.getElem?_eq_getElem hl] at h
+  simp only [Option.map_some, Option.some.injEq] at h
+  simp [pack, List.getD_eq_getElem?_getD, List.getElem?_eq_getElem hl, List.getElem?_eq_getElem hp, h]
+
+theorem pack_length (bs : List Bool) : (pack bs).length = (bs.length + 63) / 64 := by
+  have : ∀ k xs, (packN k xs).length = k := by
+    intro k; induction k with
+    | zero => intro xs; rfl
+    | succ k ih => intro xs; simp [packN, ih]
+  simp [pack, this]
+
+/-- `structural_index(pos)` on the built index: the rank of `pos` among the set interest bits when
+bit `pos` is set, `None` otherwise. -/
+theorem structuralIndex_build (f : Bool) (json : List (BitVec 8)) (pos : Nat) :
+    structuralIndex (build f json) pos =
+      if (sreference json).ib.getD pos false then some (rankB true (sreference json).ib pos) else none := by
+  have hlen : (sreference json).ib.length = json.length := (srun_bp_length .inJson json).2
+  rw [build_eq]
+  simp only [structuralIndex]
+  by_cases hp : pos ≥ json.length
+  · have : (sreference json).ib.getD pos false = false := by
+      simp [List.getD_eq_getElem?_getD, List.getElem?_eq_none (by omega : (sreference json).ib.length ≤ pos)]
+    rw [this]; simp [hp]
+  · have hpl : pos < (sreference json).ib.length := by omega
+    have hw : ¬ (pos / 64 ≥ (pack (sreference json).ib).length) := by rw [pack_length]; omega
+    simp only [hp, hw, if_false]
+    have hbit := getD_allBits_pack _ pos hpl
+    by_cases hb : (sreference json).ib.getD pos false = true
+    · have : ¬ ((pack (sreference json).ib).getD (pos / 64) 0#64 >>> (pos % 64) &&& 1#64 = 0#64) := by
+        rw [shift_and_one, hbit, hb]; simp
+      simp only [this, if_false, hb, if_true]
+      rw [ibRank1_eq _ _ (Or.inl (by simp only []; rw [pack_length]; omega))]
+      simp only []
+      rw [pack, allBits_packN _ _ (by omega), List.take_append_of_le_length (by omega), rankB]
+    · have hb' : (sreference json).ib.getD pos false = false := by simpa using hb
+      have : ((pack (sreference json).ib).getD (pos / 64) 0#64 >>> (pos % 64) &&& 1#64 = 0#64) := by
+        rw [shift_and_one, hbit, hb']
+      rw [if_pos this, hb']; simp
+
+/-! ### select and rank are inverse -/
+
+theorem selectB_spec (bs : List Bool) (k p : Nat) (h : selectB true bs k = some p) :
+    bs.getD p false = true ∧ rankB true bs p = k := by
+  induction bs generalizing k p with
+  | nil => simp [selectB] at h
+  | cons b bs ih =>
+    cases b with
+    | true =>
+      simp only [selectB, if_true] at h
+      cases k with
+      | zero => simp at h; subst h; simp [rankB]
+      | succ k =>
+        simp only [Option.map_eq_some_iff] at h
+        obtain ⟨q, hq, rfl⟩ := h
+        have := ih k q hq
+        simp [rankB] at this ⊢
+        exact this
+    | false =>
+      simp only [selectB, Bool.false_eq_true, if_false, Option.map_eq_some_iff] at h
+      obtain ⟨q, hq, rfl⟩ := h
+      have := ih k q hq
+      simp [rankB] at this ⊢
+      exact this
+
+theorem selectB_rankB (bs : List Bool) (p : Nat) (h : bs.getD p false = true) :
+    selectB true bs (rankB true bs p) = some p := by
+  induction bs generalizing p with
+  | nil => simp at h
+  | cons b bs ih =>
+    cases p with
+    | zero =>
+      have : b = true := by simpa using h
+      subst this; simp [selectB, rankB]
+    | succ p =>
+      have h' : bs.getD p false = true := by simpa using h
+      have := ih p h'
+      cases b <;> simp [selectB, rankB] at this ⊢ <;> simp [this]
+
 end SV.JsonSimple
